@@ -332,6 +332,31 @@ func durText(ns int64, f int) string {
 	return d.String()
 }
 
+// uintText: decimal, or - only with intLiteralSpellings - a Go literal: 1 0x hex, 2 0o octal,
+// 3 0b binary, 4 leading-0 octal, 5 decimal with _ separators.
+func uintText(u uint64, f int) string {
+	if !intLiteralSpellings {
+		f = 0
+	}
+	switch f {
+	case 1:
+		return "0x" + strconv.FormatUint(u, 16)
+	case 2:
+		return "0o" + strconv.FormatUint(u, 8)
+	case 3:
+		return "0b" + strconv.FormatUint(u, 2)
+	case 4:
+		return "0" + strconv.FormatUint(u, 8)
+	case 5:
+		d := strconv.FormatUint(u, 10)
+		for i := len(d) - 3; i > 0; i -= 3 {
+			d = d[:i] + "_" + d[i:]
+		}
+		return d
+	}
+	return strconv.FormatUint(u, 10)
+}
+
 // renderText renders a value for the tag default, an environment variable or the command line.
 func renderText(t int, v *Val) string {
 	if v.Empty {
@@ -341,9 +366,12 @@ func renderText(t int, v *Val) string {
 	case TBool:
 		return strconv.FormatBool(v.B)
 	case TInt, TInt64:
-		return strconv.FormatInt(v.I, 10)
+		if v.I < 0 {
+			return "-" + uintText(uint64(-v.I), v.Fmt) // -MinInt64 wraps to 2^63, which is its magnitude
+		}
+		return uintText(uint64(v.I), v.Fmt)
 	case TUint, TUint64:
-		return strconv.FormatUint(v.U, 10)
+		return uintText(v.U, v.Fmt)
 	case TString:
 		return string(v.S)
 	case TFloat:
@@ -490,6 +518,13 @@ func textCapable(t int, v *Val, src int, pipe bool) bool {
 
 // legalText is the harness' own sanity check of a rendering: the standard library reads the
 // text back to the very value. It guards the generator, it is not part of the oracle.
+func intBase() int {
+	if intLiteralSpellings {
+		return 0
+	}
+	return 10
+}
+
 func legalText(t int, text string, want any) bool {
 	if text == "" {
 		return equalVal(t, zeroOf(t), want)
@@ -501,16 +536,16 @@ func legalText(t int, text string, want any) bool {
 		got, err = strconv.ParseBool(text)
 	case TInt:
 		var x int64
-		x, err = strconv.ParseInt(text, 10, 64)
+		x, err = strconv.ParseInt(text, intBase(), 64)
 		got = int(x)
 	case TInt64:
-		got, err = strconv.ParseInt(text, 10, 64)
+		got, err = strconv.ParseInt(text, intBase(), 64)
 	case TUint:
 		var x uint64
-		x, err = strconv.ParseUint(text, 10, 64)
+		x, err = strconv.ParseUint(text, intBase(), 64)
 		got = uint(x)
 	case TUint64:
-		got, err = strconv.ParseUint(text, 10, 64)
+		got, err = strconv.ParseUint(text, intBase(), 64)
 	case TString:
 		got = text
 	case TFloat:
@@ -1146,6 +1181,9 @@ func (h *harness) parseAndCompare(cs *Case, ptr reflect.Value, leaves []leafRef,
 			}
 		}
 		stats["winner_"+strings.TrimSuffix(wn, "(empty)")]++
+		if winner == 2 {
+			cells["envname:"+l.path[len(l.path)-1]] = struct{}{} // this identifier's environment name decided a field
+		}
 		cells[l.f.Type+"/"+maskName(l.f.Mask)] = struct{}{}
 		stale := history != "" && !equalVal(l.t, want, before[i])
 		if stale {
